@@ -21,10 +21,11 @@ MOD = "mc.props.c20"
 ALLOWED = [[32, 33, False], [97, 122, False]]
 ALLOWED_WIDE = [[32, 126, False]]
 ALLOWED_NO_BLANK = [[33, 33, True], [97, 122, False]]
+ALLOWED_DESCENDING = [[97, 122, False], [32, 33, False]]  # the same characters as ALLOWED, the higher part declared first
 
 
 def allowed_items(config):
-    return {"wide": ALLOWED_WIDE, "noblank": ALLOWED_NO_BLANK}.get(config.get("allowed"), ALLOWED)
+    return {"wide": ALLOWED_WIDE, "noblank": ALLOWED_NO_BLANK, "descending": ALLOWED_DESCENDING}.get(config.get("allowed"), ALLOWED)
 CELLS = ["ab", "", "a!", "abcd", "A", " ", "b"]
 
 
@@ -33,9 +34,11 @@ def decls_for(config):
     for index, (empty, size) in enumerate(config["fields"]):
         decl = {"type": "VerifRec", "name": "f%d" % index, "empty": bool(empty), "preset": config["preset"]}
         if config["preset"] == "fixed":
-            decl["width"] = size[-1] if isinstance(size, tuple) else size
+            decl["width"] = size[2] if isinstance(size, tuple) else size
         elif isinstance(size, tuple):  # (n, lower, upper): the multi-part length "n, lower...upper" with a gap in between
             decl["length"] = [[size[0], size[0], True], [size[1], size[2], False]]
+            if len(size) == 4:  # (n, lower, upper, "descending"): the same parts written as "lower...upper, n"
+                decl["length"].reverse()
         elif size:
             decl["length"] = [[1, size, False]]
         if config.get("allowed"):
@@ -45,7 +48,7 @@ def decls_for(config):
 
 
 def make_cid(config, decls, type_name="VerifRec", check_type="VerifProto"):
-    rows = harness.cid_rows(config["preset"], decls, [["k%d" % i, check_type, rule] for i, rule in enumerate(config["checks"])], config["header"],
+    rows = harness.cid_rows(config["preset"], decls, [[name, check_type, rule] for name, rule in zip(protocol.check_names(len(config["checks"])), config["checks"])], config["header"],
                             allowed=allowed_items(config) if config.get("allowed") else None, line_delimiter="lf", allowed_after_fields=bool(config.get("allowed_after")))
     for row in rows:
         if row[0] == "F":
@@ -230,11 +233,11 @@ def configs(tier):
     result = []
     for preset in ("delimited", "fixed"):
         for header in (0, 1, 2):
-            for fields in ([(False, 3)], [(True, 4), (False, 2)], [(False, 2), (True, 3), (False, 3)], [(False, (1, 3, 4)), (True, 4)]):
+            for fields in ([(False, 3)], [(True, 4), (False, 2)], [(False, 2), (True, 3), (False, 3)], [(False, (1, 3, 4)), (True, 4)], [(False, (1, 3, 4, "descending")), (True, 4)]):
                 if isinstance(fields[0][1], tuple) and (preset == "fixed" or tier == "quick" and header == 2):
                     continue
                 for checks in ([], ["ok"], ["veto:ab", "ok"], ["ok", "end", "ok"], ["end", "veto:b"]):
-                    for allowed in (False, True) + (("noblank",) if preset == "fixed" and len(fields) < 3 else ()):
+                    for allowed in (False, True) + (("noblank",) if preset == "fixed" and len(fields) < 3 else ()) + (("descending",) if header < 2 and len(fields) == 2 and len(checks) in (0, 2) else ()):
                         if tier == "quick" and (header == 2 or len(fields) == 3) and (allowed or len(checks) == 1):
                             continue
                         result.append({"preset": preset, "header": header, "fields": fields, "checks": checks, "allowed": allowed})
